@@ -19,6 +19,12 @@ def complex_line(l):
     return any(t in l for t in ("(record", "(array", "(map", "(union", "(ref"))
 
 
+def c06_runs(tier, scale):
+    if tier == "thorough":
+        return [("c06", [3000 * scale, 3 + (i % 3), 2 if i == 0 else 0, [4096, 65536, 1 << 20, 512 << 20][i % 4]], None) for i in range(16)]
+    return [("c06", [250 * scale, 3, 1, 65536], None), ("c06", [150 * scale, 5, 0, 4096], None)]
+
+
 PROPS = {
     "C01": {
         "lean_modules": ["AvroProofs.C01"],
@@ -40,5 +46,24 @@ PROPS = {
                             "explicit hypothesis - discharged separately in AvroProofs.Lemmas.Prim where proved"},
         ],
         "assumptions": ["values within the allocation limit (Conforms includes length <= lim); lim < 2^63"],
+    },
+    "C06": {
+        "lean_modules": ["AvroProofs.C06", "AvroProofs.C01"],
+        "theorems": ["Avro.C06.decode_conforms", "Avro.C06.decode_reencode", "Avro.C01.decode_encode"],
+        "partial": [
+            {"theorem": "Avro.C06.decode_conforms",
+             "excluded_by": "hypothesis PrimFacts (closed statements about the model's num-bigint / uuid-text functions, not yet "
+                            "all proved in Lean); wfS s / EnvOk env (what the parser and ResolvedSchema guarantee); 36 <= lim"},
+            {"theorem": "(not yet stated) truncation_errors / decoders_agree",
+             "excluded_by": "covered only by the implementation oracle of the correspondence run so far"},
+        ],
+        "harness": c06_runs,
+        "projection": "okerr",
+        "nontrivial": lambda l: True,
+        "rule": "byte strings = exhaustive short strings over 38 fixed small schemas, every truncation of valid encodings "
+                "of generated (schema, value) pairs, bit flips, byte substitutions, boundary-varint splices, random bytes; "
+                "each through the generic decoder and the schema-aware deserializer; distinct = distinct request lines",
+        "trusted_base": DATUM_TB,
+        "assumptions": [],
     },
 }
